@@ -48,6 +48,10 @@ CHECKS['C12'] = (OTHER, 'symbolic execution of the real PanelAssembly.get_k0_con
     'Bounded symbolic verification for all real geometry, interface positions, flags, laminates (18 ABD entries per panel), thicknesses: every entry of the assembled, symmetrised connection matrix equals the Hessian of kt/2 int|jump|^2 + kr/2 int(jump rotation)^2 with the constants of the panels actually joined; calc_kt_kr symmetric and homogeneous.',
     'Bounds per evidence; panels share the interface length as the kernels assume; PSD / zero energy for continuous fields are corollaries.',
     'DESIGN.md section 4 C12')
+CHECKS['C14'] = ('translation_validation', 'relational symbolic execution: two equivalent descriptions run through the real Panel API over de-Cythonised kernels on shared symbols, one z3 (qfnra-nlsat) identity per matrix entry; exact-rational replay of disagreements',
+    'Bounded translation-validation of kernel/description pairs: cone(0)=cylinder, cylinder(1/r=0)=plate, w-only=w-block, numeric(c=0)=analytic (exact rational rule; also force_orthotropic_laminate), axis exchange, similarity scaling, for k0/kG0/kM (and kAx/kAy/cA where defined) over all real geometry, laminate, flags, loads.',
+    'Series orders bounded; additivity/end-point lemmas of C10 assumed in (a); eigenvalue corollaries by congruence/scaling are an argument, not a query.',
+    'DESIGN.md section 4 C14')
 NA = {
     'C15': 'eigenvalue monotonicity/convergence for pencils of size 48..768 is not a bounded first-order query any installed solver can decide; the algebraic ingredients (exact Hessians, exact tables, nestedness) are decided under C02-C04 and C10 (DESIGN.md section 5)',
 }
